@@ -41,6 +41,10 @@ CHECKS = {
   text="The Lean models of every entry point (document, value, key, key path, slice, standalone date-time, error rendering) are total functions with no panic outcome; theorems in Props/C04.lean discharge the code's guards (every byte class fed to from_utf8_unchecked is ASCII-only hence valid UTF-8; the remaining sites are tied to theorems of C05/C09/C12/C14/C15 in Model/PanicSites.lean). Tie: the inventory of every expect/unwrap/unreachable!/panic!/assert! in the 17 anchored files is regenerated from /repo and must equal the inventory the models account for (a new or moved panic site breaks the table theorem). Correspondence: per-entry-point verdicts of model and implementation on corpus files, mutations, single tokens, arbitrary and non-UTF-8 bytes, partial characters, unterminated and extreme constructs of several KiB; the implementation runs every entry point and every follow-up operation (print, debug, clone, into_mut, from_document, serialize, error rendering) under catch_unwind in a build with debug assertions and overflow checks, with a per-input time bound.",
   note="Trusted: Lean kernel, translate.py (regex inventory), sampling correspondence. Termination is by construction of the model (fuel); that the fuel bound is never the cause of a rejection is validated by the correspondence, the linear time budget is measured. Clone/Drop/Debug derives are not modelled (their recursion depth is C05).",
   technique="Lean 4 total model + guard proofs + panic-site inventory re-proof + differential correspondence under catch_unwind", design="7/C04"),
+ "C18": dict(
+  text="The Lean model has exactly two configuration parameters (map order of toml::Table: sorted | insertion; recursion limit: LIMIT | none); theorems in Props/C18.lean state what may depend on them (sorting is independent of insertion order on distinct keys; the sorted plain form is invariant under permutation of table entries) and the parser model takes no other configuration. The tie is the correspondence repeated per configuration: a dedicated crate (harness18) whose Cargo features map to the crates' features is BUILT under each cell of {perf} x {preserve_order} x {parse+display, parse-only, display-only} plus unbounded and serde (quick: 4 cells; thorough: 15 cells + the Cargo-only cells), which also shows that every configuration builds; a fixed seed-independent battery (500 generated documents, the toml-test files, depth documents, 300 API-built documents) is run in each cell and compared with the model instance for that cell (verdict, decoded tree, toml::Table data, iteration order sorted vs insertion) and, for printed text, with the default cell.",
+  note="The configuration quantifier is finite and enumerated; the input quantifier is carried by the configuration-independent model plus the per-configuration correspondence on the battery. Whether each cell compiles is established by building it.",
+  technique="Lean 4 proof (order invariance) + per-configuration differential correspondence over the enumerated feature matrix", design="7/C18"),
 }
 
 NA = {}
